@@ -128,7 +128,7 @@ def compare(case, model_case, b, broker, ex, active):
                 why.append("disabled")
             if i in case["seeded"]:
                 why.append("seeded")
-            if i in ex.missing or (i in ex.val and ex.val[i][0] == "SKIPRESP"):
+            if i in ex.missing or (isinstance(ex.val.get(i), tuple) and ex.val[i] and ex.val[i][0] == "SKIPRESP"):
                 why.append("requirements not met")
             if i not in active:
                 why.append("not part of the evaluated graph")
@@ -239,9 +239,11 @@ def shapes(tier):
                     seen.add(key)
                     if ttype in ("plain", "combiner") and (L > 2 or u > 2):
                         continue
-                    for present in itertools.product([True, False], repeat=u):
-                        nodes = [{"t": "component", "decl": [], "fault": "ok" if p else "skip", "multi": 0,
-                                  "efaults": ["ok"], "coe": True} for p in present]
+                    # each upstream component: produced a (truthy) value / produced a falsy value / absent
+                    states = ["value", "falsy", "absent"] if (u <= 2 or L <= 2) else ["value", "absent"]
+                    for present in itertools.product(states, repeat=u):
+                        nodes = [{"t": "component", "decl": [], "fault": "skip" if p == "absent" else "ok", "multi": 0,
+                                  "efaults": ["ok"], "coe": True, "val": "false" if p == "falsy" else "t"} for p in present]
                         nodes.append({"t": ttype, "decl": [list(d) if d[0] != "grp" else ["grp", list(d[1])] for d in decl],
                                       "fault": "ok", "multi": 0, "efaults": ["ok"], "coe": True})
                         yield {"nodes": nodes, "seeded": [], "disabled": [], "store_skips": False,
